@@ -64,15 +64,21 @@ pub struct Checked {
 
 pub fn check_wellformed(src: &str) -> Checked {
     let mut issues = Vec::new();
-    let structs = match parse_rendered(src) {
-        Ok(s) => s,
-        Err(e) => {
-            return Checked {
-                issues: vec![Issue::Unreadable(e)],
-                structs: Vec::new(),
-                tree: None,
+    // the line grammar is lenient about identifiers (it reads `struct Self`), syn is lenient about
+    // layout: a text is unreadable only if neither reads it
+    let line_view = parse_rendered(src);
+    let structs = match &line_view {
+        Ok(s) => s.clone(),
+        Err(e) => match syn_view(src) {
+            Ok(s) => s,
+            Err(e2) => {
+                return Checked {
+                    issues: vec![Issue::Unreadable(format!("{}; {}", e, e2))],
+                    structs: Vec::new(),
+                    tree: None,
+                }
             }
-        }
+        },
     };
     for (i, s) in structs.iter().enumerate() {
         if let Err(why) = legal_ident(&s.name) {
@@ -123,8 +129,10 @@ pub fn check_wellformed(src: &str) -> Checked {
     };
     match syn_view(src) {
         Ok(sv) => {
-            if let Err(e) = cross_check(&structs, &sv) {
-                issues.push(Issue::ViewsDisagree(e));
+            if line_view.is_ok() {
+                if let Err(e) = cross_check(&structs, &sv) {
+                    issues.push(Issue::ViewsDisagree(e));
+                }
             }
         }
         Err(e) => {
